@@ -41,7 +41,7 @@ func (c *c01) Meta() engine.Meta {
 		Rule: "default = dense 8-block history (all 8 tx types, validator change, passing governance proposal, unbonding+refund, rewards+withdraw, contract deploy/call); " +
 			"deviation slots: every tx position (drop / replace by one of 24 menu templates, 12 of them failing), an append slot per block, per-block absent-signer pattern, evidence entry, proposer; " +
 			"genesis variants g3 (3 validators, neutral limiter), g1 (1 validator), g4L (4 equal validators, limiter 33/33), g3s (small-stake history: power-1 stakes, evidence, jailing), g3pp (four passed proposals applying in the same block with overlapping fields). " +
-			"Each history runs on replica A and on replica B in ANOTHER OS PROCESS (separate data directory, TZ changed, restarted once at a case-dependent height; thorough: a third, never restarted replica); compared per call: DeliverTx code/data/gas, EndBlock validator updates (ordered), Commit app hash, Info. " +
+			"Each history runs on replica A and on replica B in ANOTHER OS PROCESS (separate data directory, TZ changed, restarted once at a case-dependent height; thorough: a third, never restarted replica); compared per call: DeliverTx code/data/gas, EndBlock validator updates (ordered), Commit app hash, Info; and the complete state committed by the last block (the reward ledger's root enters the app hash only at every 10th height, beyond these histories: a state difference is an app-hash difference at that height). " +
 			"distinct_nontrivial = histories with at least one successful and one failed transaction.",
 		Assumptions: []string{
 			"Go's map iteration order cannot be enumerated from outside the runtime: each history is executed on 2 (thorough: 3) replicas, so an order dependence is exercised many thousand times but SAMPLED, not enumerated; the exhaustive dimension is the history",
@@ -146,7 +146,21 @@ func (c *c01) Eval(req json.RawMessage) json.RawMessage {
 	rsAt := int64(1 + int(shortHash(string(req))[0])%(len(h.Blocks)-1))
 	r := sim.Run(tmpRoot(), h, &sim.Hooks{NoStates: true, RestartAfter: map[int64]bool{rsAt: true}})
 	defer r.Cleanup()
-	return sim.MustJSON(r.Chain.ConsensusLog())
+	return sim.MustJSON(append(r.Chain.ConsensusLog(), finalStateLine(r.Chain)))
+}
+
+// finalStateLine: the complete state committed by the last block, as one more compared "response". A ledger whose root
+// enters the app hash only at every 10th height (rewards) may differ between replicas without the hashes of an
+// 8-block history showing it; the state itself shows it at once.
+func finalStateLine(ch *sim.Chain) string {
+	if ch == nil || ch.Dead {
+		return "CommittedState@final -"
+	}
+	st, err := ch.DumpState(0, append(append([][]byte{}, ch.Deployed...), ch.Watch...))
+	if err != nil {
+		return "CommittedState@final error " + err.Error()
+	}
+	return "CommittedState@final " + committedOnly(st).JSON()
 }
 
 func txStats(r *sim.RunResult) (ok, failed int) {
@@ -205,7 +219,7 @@ func (c *c01) RunDesc(desc json.RawMessage) engine.Result {
 	}
 	// replica B lives in ANOTHER OS PROCESS (helper with another TZ), in another directory, and in two
 	// successive application instances: it is restarted once, after a height derived from the case.
-	la := a.Chain.ConsensusLog()
+	la := append(a.Chain.ConsensusLog(), finalStateLine(a.Chain))
 	if c.pool == nil {
 		_ = os.Setenv("TZ", "Asia/Seoul")
 		p, err := engine.NewPool("C01", 1)
@@ -236,6 +250,13 @@ func (c *c01) RunDesc(desc json.RawMessage) engine.Result {
 	res.Nontrivial = ok > 0 && failed > 0
 	res.Outcome = shortHash(strings.Join(la, "\n"))
 	report := func(i int, x, y, who string) {
+		if strings.HasPrefix(x, "CommittedState@final {") && strings.HasPrefix(y, "CommittedState@final {") {
+			var sa, sb sim.State
+			if json.Unmarshal([]byte(strings.TrimPrefix(x, "CommittedState@final ")), &sa) == nil && json.Unmarshal([]byte(strings.TrimPrefix(y, "CommittedState@final ")), &sb) == nil {
+				d := sim.DiffStates(&sa, &sb)
+				x, y = "CommittedState@final (A vs other): "+fmt.Sprint(tailOf(d, 6)), "(see A)"
+			}
+		}
 		res.Violations = append(res.Violations, engine.Violation{Property: "C01", Kind: "replicas-diverge", Site: callKind(x),
 			Detail: fmt.Sprintf("replica A and %s differ at consensus call #%d:\n A: %s\n %s: %s\n history: %v", who, i, x, who, y, descr), Case: desc})
 	}
@@ -245,7 +266,7 @@ func (c *c01) RunDesc(desc json.RawMessage) engine.Result {
 	if c.tier == "thorough" && len(res.Violations) == 0 {
 		// a third replica in this process, never restarted
 		cr := sim.Run(tmpRoot(), h, &sim.Hooks{NoStates: true})
-		lc := cr.Chain.ConsensusLog()
+		lc := append(cr.Chain.ConsensusLog(), finalStateLine(cr.Chain))
 		cr.Cleanup()
 		res.Transitions += len(lc)
 		res.Count("third_replica", 1)
@@ -254,7 +275,7 @@ func (c *c01) RunDesc(desc json.RawMessage) engine.Result {
 		}
 	}
 	if len(cs.Devs) <= 1 {
-		res.Sample = sim.MustJSON(map[string]interface{}{"variant": cs.Variant, "deviations": descr, "consensus_calls": len(la), "tx_ok": ok, "tx_failed": failed, "final_app_hash": la[len(la)-1], "history": describeBlocks(h)})
+		res.Sample = sim.MustJSON(map[string]interface{}{"variant": cs.Variant, "deviations": descr, "consensus_calls": len(la), "tx_ok": ok, "tx_failed": failed, "final_app_hash": la[len(la)-2], "history": describeBlocks(h)})
 	}
 	return res
 }
